@@ -23,7 +23,8 @@ contract("_TextualFinder._normal_search", source=M + "_TextualFinder._normal_sea
                   "forall(lambda p: implies(0 <= p and (len(result) == 0 or p > result[len(result) - 1]), not W(source, self.name, p)))",
                   "forall(lambda k, p: implies(0 <= k and k < len(result) - 1 and result[k] < p and p < result[k + 1], not W(source, self.name, p)))",
                   "forall(lambda p: implies(len(result) > 0 and 0 <= p and p < result[0], not W(source, self.name, p)))"],
-         loops={1: {"inv": ["0 <= current and current <= len(source)",
+         loops={1: {"decreases": "len(source) - current",
+                    "inv": ["0 <= current and current <= len(source)",
                             "forall(lambda a, b: implies(0 <= a and a < b and b < len(_yielded), _yielded[a] < _yielded[b]))",
                             "forall(lambda k: implies(0 <= k and k < len(_yielded), W(source, self.name, _yielded[k]) and _yielded[k] + len(self.name) <= current))",
                             "forall(lambda p: implies(0 <= p and p < current and (len(_yielded) == 0 or p > _yielded[len(_yielded) - 1]), not W(source, self.name, p)))",
